@@ -383,19 +383,22 @@ _VECTOR = ["RWG", "SNC"]
 _DEG = {"DP0": 0, "DP1": 1, "P1": 1, "RWG": 1, "SNC": 1}
 
 
-def shards(tier):
-    n = 1 if tier == "quick" else 10
+def shards(tier, seed=1):
+    from vlib.pbt import rot
+
+    q = tier == "quick"
+    n = 1 if q else 10
     out = []
     for grp in ("scalar", "vector"):
-        for rep in range(2):
-            out.append({"check": "identity", "group": grp, "op": "I", "examples": 30 * n, "budget_s": 120 * n, "rep": rep})
-    out.append({"check": "identity", "group": "lb", "op": "LB", "examples": 30 * n, "budget_s": 120 * n})
+        out.append({"check": "identity", "group": grp, "op": "I", "examples": 40 * n, "budget_s": 200 * n})
+    out.append({"check": "identity", "group": "lb", "op": "LB", "examples": 30 * n, "budget_s": 200 * n})
     for grp in ("scalar", "vector"):
-        out.append({"check": "gridfunction", "group": grp, "examples": 25 * n, "budget_s": 120 * n})
-    for variant in ("jit_real", "jit_complex", "jit_param", "nonjit", "nonjit_param", "vectorized", "vectorized_param"):
-        out.append({"check": "projection", "variant": variant, "examples": 10 * n, "budget_s": 150 * n})
+        out.append({"check": "gridfunction", "group": grp, "examples": 25 * n, "budget_s": 200 * n})
+    variants = ["jit_real", "vectorized", "jit_complex", "nonjit", "jit_param", "nonjit_param", "vectorized_param"]
+    for variant in (rot(variants, seed, 3) if q else variants):
+        out.append({"check": "projection", "variant": variant, "examples": 10 * n, "budget_s": 240 * n})
     for mode in ("component", "inner"):
-        out.append({"check": "multiplication", "mode": mode, "examples": 15 * n, "budget_s": 120 * n})
+        out.append({"check": "multiplication", "mode": mode, "examples": 15 * n, "budget_s": 200 * n})
     return out
 
 
@@ -476,5 +479,7 @@ def strategy(spec):
 
 
 def required_labels(tier):
-    return ["gram", "I", "LB", "gridfunction", "projection", "multiplication", "segment", "complex", "RWG", "SNC", "P1", "DP0", "DP1",
-            "jit_real", "jit_complex", "jit_param", "nonjit", "vectorized", "sums_to_area", "constants_in_kernel", "equal_spaces"]
+    base = ["gram", "I", "LB", "gridfunction", "projection", "multiplication", "segment", "complex", "RWG", "SNC", "P1", "DP0", "DP1"]
+    return base if tier == "quick" else base + ["jit_real", "jit_complex", "jit_param", "nonjit", "vectorized", "sums_to_area", "constants_in_kernel", "equal_spaces"]
+
+
